@@ -115,7 +115,7 @@ func (_this *MarkedObjectAnyTypeRule) OnArrayBegin(ctx *Context, arrayType event
 	ctx.ParentRule().OnArrayBegin(ctx, arrayType)
 }
 func (_this *MarkedObjectAnyTypeRule) OnChildContainerEnded(ctx *Context, cType DataType) {
-	ctx.MarkObject(cType)
+	ctx.MarkEndedContainer(cType)
 	ctx.UnstackRule()
 	ctx.CurrentEntry.Rule.OnChildContainerEnded(ctx, cType)
 }
